@@ -1,7 +1,57 @@
 /-
 Helper lemmas: append-only proof generation over storage and its verification (C04).
+
+* `AuditGenTree`  — pure part on canonical tries: `restrict`, `collapse`, the element lists, and the
+  "frontier rebuild" lemma (`collapse_sim`);
+* `AuditGenRoot`  — root level: the auditor's two rebuilds return the root hashes published at the
+  two epochs (`rebuild_unchanged`, `rebuild_inserted`), the label check passes (`labels_ok`);
+* `AuditGenStore` — `appendOnlyHelper` over a store representing the trie returns these element lists
+  (`helper_root`), the loop of `appendOnlyProof` (`go_spec`);
+* this file       — `Auditor.consecutive` for one epoch, `Auditor.verify.go` over the range.
 -/
-import AkdModel.Thm.C02
 import AkdModel.Thm.C09
-namespace Akd
-end Akd
+import AkdModel.Lemmas.AuditGenStore
+namespace Akd.AGen
+open Akd
+
+/-- the root hash published at epoch `i` (`C04.treeAt`) -/
+def hashAt (c : Cfg) (t : CRoot) (i : Nat) : Dig :=
+  (CRoot.ofLeaves (t.leaves.filter (fun lf => decide (lf.ep ≤ i)))).rootHash c
+
+/-- one epoch: the generated single-epoch proof is accepted -/
+theorem consecutive_ok (c : Cfg) (hce : c.emptyLabel.len = 0) (t : CRoot) (hwf : t.WF)
+    (hl : ∀ lf ∈ t.leaves, 1 ≤ lf.lbl.length ∧ lf.lbl.length ≤ 256) (e : Nat) :
+    Auditor.consecutive c ⟨IR e (e + 1) t, ER c e e t⟩ (hashAt c t e) (hashAt c t (e + 1)) (e + 1) = .ok () := by
+  rw [Aud.consecutive_ok]
+  refine ⟨labels_ok c t hwf hl e, rebuild_unchanged c hce t hwf hl e none, Nat.succ_ne_zero e, ?_⟩
+  exact rebuild_inserted c hce t hwf hl e (some (e + 1 - 1))
+
+/-! ### the range -/
+
+def restHashes (c : Cfg) (t : CRoot) : Nat → Nat → List Dig
+  | _, 0 => []
+  | ep, k + 1 => hashAt c t ep :: restHashes c t (ep + 1) k
+
+theorem range_hashes (c : Cfg) (t : CRoot) : ∀ (k ep : Nat),
+    (List.range (k + 1)).map (fun i => hashAt c t (ep + i)) = hashAt c t ep :: restHashes c t (ep + 1) k
+  | 0, ep => by simp [restHashes]
+  | k + 1, ep => by
+    rw [List.range_succ_eq_map, List.map_cons, List.map_map, restHashes, ← range_hashes c t k (ep + 1)]
+    simp only [Nat.add_zero, List.cons.injEq, true_and]
+    apply List.map_congr_left
+    intro i _
+    simp only [Function.comp_apply]
+    congr 1
+    omega
+
+theorem vgo_spec (c : Cfg) (hce : c.emptyLabel.len = 0) (t : CRoot) (hwf : t.WF)
+    (hl : ∀ lf ∈ t.leaves, 1 ≤ lf.lbl.length ∧ lf.lbl.length ≤ 256) : ∀ (k ep : Nat),
+    Auditor.verify.go c (hashAt c t ep :: restHashes c t (ep + 1) k) (proofsFrom c t ep k) (epochsFrom ep k)
+      = .ok ()
+  | 0, ep => rfl
+  | k + 1, ep => by
+    simp only [restHashes, proofsFrom, epochsFrom, Auditor.verify.go]
+    rw [consecutive_ok c hce t hwf hl ep]
+    exact vgo_spec c hce t hwf hl k (ep + 1)
+
+end Akd.AGen
